@@ -153,7 +153,7 @@ def gen_view_request(rng):
     headers = []
     for name in rng.sample(list(HEADER_POOL), rng.randrange(0, 6)):
         headers.append((name, rng.choice(HEADER_POOL[name])))
-    kind = rng.choice(["json", "badjson", "urlenc", "multipart", "raw", "none", "json-charset", "urlenc-charset"])
+    kind = rng.choice(["json", "badjson", "urlenc", "multipart", "raw", "none", "json-charset", "urlenc-charset"] + (["multipart-many"] if rng.random() < 0.15 else []))
     body = b""
     if kind == "json":
         body, ct = rng.choice([b'{"a": [1, 2]}', b'"\xc3\xa9"', b"[]"]), "application/json"
@@ -169,6 +169,12 @@ def gen_view_request(rng):
         form = MC.gen_form(rng)
         if rng.random() < 0.5:
             form["parts"].append({"name": "city", "filename": None, "content": rng.choice(["Zürich", "東京都", "naïve café"]).encode(), "ctype": None, "extra": False})
+        body, _ = MC.encode(form)
+        ct = MC.content_type_header(form)
+    elif kind == "multipart-many":
+        n = rng.choice([323, 324, 325])  # around the accessors' default part limit
+        form = {"boundary": b"mm", "parts": [{"name": f"k{i}", "filename": None, "content": b"v", "ctype": None, "extra": False} for i in range(n)],
+                "preamble": b"", "epilogue": b"", "pad": b""}
         body, _ = MC.encode(form)
         ct = MC.content_type_header(form)
     elif kind == "raw":
